@@ -1,6 +1,6 @@
 PROPS["C14"] = dict(
     pkg="p_ring", hooks=["container"], level="exploration", design="DESIGN.md §4 C14",
-    technique="model-based PBT (rapid) against a slice model + bounded-exhaustive op-list enumeration",
+    technique="model-based PBT (rapid) against a slice model + bounded-exhaustive op-list enumeration + deterministic fill-to-checkpoint runs against an arithmetic model",
     rule="case = (capacity, op list over Write/Read/ReadN/Skip/At/Clear); exhaustive over the full op alphabet "
          "(ReadN len 0..cap+2, Skip -1..cap+2 and MaxInt, At -1..cap+1 and MaxInt) for capacities 0..3(4) to the depth in exhaustive_parts, and once more to depth 3 (thorough 4) over that alphabet widened by the out-of-range arguments Skip(2^k+1), At(2^k) for k=16,31,32 whose low bits equal the smallest in-range argument, rapid lists "
          "for capacities 0..300 with arguments that also include +-2^31, +-2^40, MaxInt, MinInt and (one Skip/At argument in six) an in-range value moved out of range by a multiple (1,2,3,-1,-2,255,2^20) of 2^16, 2^31 or 2^32 (ReadN destination lengths: by 1..3 times 2^16 only, they must be allocated), and (one case in eleven) capacities 301..5000 incl. 2^k-1, 2^k, 2^k+1 whose short lists mix single calls with bulk fills "
@@ -11,8 +11,16 @@ PROPS["C14"] = dict(
          "zero-size element type with capacities up to MaxInt-1 (which only such a type can have; there the backing array exceeds 2^32 slots, so the Skip/At/ReadN arguments congruent to small values modulo 2^16, 2^31, 2^32 - systematic lists and one random argument in six, ReadN destinations of any length since they cost nothing - lie inside the array although out of range); "
          "the same unit also runs element types that cannot be compared with == - []byte, map, func, a struct with a slice field, an array of slices (values incl. the nil/zero value and empty slices; the harness tracks their identity through the slice header, the map header or the serial number a func returns) - "
          "and the interface element types any and error whose values are the nil interface (the zero value of V, a legal element), typed nils (nil pointer, nil map), uncomparable dynamic values ([]byte) and ordinary non-nil values incl. the sentinels io.EOF and ErrExhausted themselves: "
-         "systematic lists make every kind of value meet the full buffer of every capacity 0..3 and travel through it, random lists on capacities 0..6 mix them (classes element_shape:<type>:<kind>_stored / _written_to_full_buffer / _returned); ReadN must also leave the tail of its window beyond the count untouched; "
-         "an independent unit lets 2..8 goroutines work at the same time, each through families of its own private buffers (never shared; capacities 0..5000, a family = the same op list on capacities c..c+span-1, most lists first fill to one short of / exactly / beyond the brim; element shapes mixed), every buffer against the model - independent buffers must not interact through package state (a fatal runtime error is attributed by the driver as process-crash); non-trivial = some op spanned the wrap point of the backing array, or Write hit Len==Cap, "
+         "and the predeclared basic element types byte (= uint8), int8, uint16, rune (= int32), int, int64, uint64, uintptr, bool, float32, float64, complex128 and named types over byte, int, rune, bool, float64, string "
+         "(an implementation may special-case an instantiation, e.g. a copy fast path for byte buffers; value sets contain the zero value and, for floats, NaN, -0 and the infinities, compared bit by bit): "
+         "systematic lists make every kind of value meet the full buffer of every capacity 0..3 and travel through it (the rotation by 0..13 Write/Read pairs puts the wrap point at every position before a ReadN with room for the whole buffer), random lists on capacities 0..6 mix them "
+         "(classes element_shape:<type>:<kind>_stored / _written_to_full_buffer / _returned, and per element type readn_spans_wrap_point, readn_with_room_for_everything_on_wrapped_window / _on_unwrapped_window); ReadN must also leave the tail of its window beyond the count untouched; "
+         "a held unit moves the number of elements a buffer HOLDS (not the arguments) across the word sizes: buffers of capacity 2^p-1, 2^p, 2^p+1 and one of capacity 2^pmax+2 are filled by single Write calls (every one must be accepted; Len is looked at every 2^22 calls) after an offset phase that moves the indices off 0, "
+         "and at the held counts 2^p-1, 2^p, 2^p+1 and at the brim a fixed battery is compared with the arithmetic model (held count, serial number of the oldest element): Len, Cap, At at in-range indices (0, 1, middle, last, and 2^16/2^31/2^32 -1/+0/+1 when the buffer holds that many) and out-of-range ones, Skip of non-positive counts, Write on the full buffer = ErrExhausted, "
+         "Skip(3), ReadN into a 2-element and a 0-element window, Read, the same number of Writes back, and finally a drain by ReadN(Len+2 slots) / Skip(Len) / Skip(MaxInt) / Clear followed by Read=io.EOF, At(0) panics, Write+Read; "
+         "p = 8, 15, 16, 24 for zero-size and byte elements, 8, 15, 16 for bool, int, string, 8, 16 for float64 and a named byte type; THOROUGH TIER ONLY: p = 31 and 32 for the zero-size element type (capacities 2^31, 2^32, 2^32+2: more than 10^10 Write calls, about 30 s on three shards) - "
+         "a defect that needs 2^31 or more elements in the buffer at once (e.g. a 32-bit element counter) is out of reach of the quick tier, which holds at most 2^24+2 elements; "
+         "an independent unit lets 2..8 goroutines work at the same time, each through families of its own private buffers (never shared; capacities 0..5000, a family = the same op list on capacities c..c+span-1, most lists first fill to one short of / exactly / beyond the brim; element shapes mixed: *int, string, struct, zero-size, byte, bool, float64, a named string type), every buffer against the model - independent buffers must not interact through package state (a fatal runtime error is attributed by the driver as process-crash); non-trivial = some op spanned the wrap point of the backing array, or Write hit Len==Cap, "
          "or Read hit empty; distinct = FNV hash of (capacity, op list)",
     assumptions=["slice model of a bounded FIFO written from the RingBuffer interface comments and the C14 statement",
                  "cleared-slot invariant read through the overlay accessor VerifRingSlots (skipped if the hook no longer compiles)"],
